@@ -119,7 +119,7 @@ func judgeVerify(t tracker, tx int, start uint32, err error) string {
 
 func sequentialPart(r *kit.Run, txs []*types.Transaction) {
 	rng := r.Rand("seq")
-	nSeq := r.N(1500, 60000)
+	nSeq := r.N(1500, 240000)
 	for s := 0; s < nSeq; s++ {
 		capacity := 1 + rng.Intn(maxCap)
 		v := increment.NewIncrementValidator(capacity)
@@ -614,7 +614,7 @@ func TestC38(t *testing.T) {
 	r.Assume("capacity = the positive maxBlocks given to NewIncrementValidator (maxBlocks <= 0 is not exercised)")
 	txs := universe(r.Rand("txs"))
 	sequentialPart(r, txs)
-	nHist := r.N(600, 20000)
+	nHist := r.N(600, 80000)
 	concurrentPart(r, txs, nHist, true)
 	statefulPart(r)
 	r.Require("seq_block_tracked", 1000)
@@ -644,6 +644,6 @@ func TestC38Race(t *testing.T) {
 	defer r.Finish()
 	r.Rule("concurrent AddBlock/Verify/BlockRange/Clean workload of the main phase under -race (no porcupine)")
 	txs := universe(r.Rand("txs"))
-	concurrentPart(r, txs, r.N(300, 5000), false)
+	concurrentPart(r, txs, r.N(300, 20000), false)
 	r.Sample(map[string]interface{}{"part": "race", "histories": r.Get("conc_histories")})
 }
